@@ -784,7 +784,14 @@ type hbres struct {
 	ran      bool
 }
 
-var reClassName = regexp.MustCompile(`\bq(\d{4})\b`)
+// lines of `go build` output that blame one directory of the history module: a compile error inside
+// the package, a missing Register / EntryPath seen from the table, mixed package clauses, no Go files
+var reClassBlame = []*regexp.Regexp{
+	regexp.MustCompile(`^(?:\./)?q(\d{4})/\S+\.go:\d+:\d+:`),
+	regexp.MustCompile(`^\./zz_table\.go:\d+:\d+:.*\bq(\d{4})\.`),
+	regexp.MustCompile(`found packages .*/q(\d{4})\b`),
+	regexp.MustCompile(`(?:package|imports) main/q(\d{4})\b`),
+}
 
 // behave builds every class as a package of one module and runs it compiled and interpreted.
 func behave(classes []*hclass, repo, overlay string) (map[string]*hbres, string) {
@@ -860,10 +867,10 @@ func behave(classes []*hclass, repo, overlay string) (map[string]*hbres, string)
 		// Register / EntryPath) is an observation about that directory; drop it and build the rest
 		bad := map[string][]string{}
 		for _, l := range strings.Split(o, "\n") {
-			for _, mm := range reClassName.FindAllStringSubmatch(l, -1) {
-				n := "q" + mm[1]
-				if byName[n] != nil {
-					bad[n] = append(bad[n], strings.ReplaceAll(l, m, ""))
+			for _, re := range reClassBlame {
+				if mm := re.FindStringSubmatch(l); mm != nil && byName["q"+mm[1]] != nil {
+					bad["q"+mm[1]] = append(bad["q"+mm[1]], strings.ReplaceAll(l, m, ""))
+					break
 				}
 			}
 		}
